@@ -794,3 +794,137 @@ Proof.
   unfold name_line, name_key. rewrite !no_break_app. rewrite Hp, show_N_no_break.
   cbn [snd] in Hb. unfold no_break in *. cbn [forallb]. now rewrite Hb.
 Qed.
+
+(* ================================================================================================ *)
+(* D.2 the header loop                                                                              *)
+(* ================================================================================================ *)
+Definition fold_header (au : bool) (rc : list text) (r : result cinst) (ls : list text) : result cinst :=
+  fold_left (fun r l => rbind r (fun i => header_line au rc i (strip l))) ls r.
+
+Lemma fold_header_err au rc e ls : fold_header au rc (Err e) ls = Err e.
+Proof. induction ls as [|l r IH]; [reflexivity|]. exact IH. Qed.
+
+Lemma fold_header_app au rc r a b :
+  fold_header au rc r (a ++ b) = fold_header au rc (fold_header au rc r a) b.
+Proof. apply fold_left_app. Qed.
+
+Lemma fold_header_nl au rc ls : forall r,
+  fold_header au rc r (map (fun l => l ++ nl) ls) = fold_header au rc r ls.
+Proof.
+  unfold fold_header. induction ls as [|l t IH]; intros r; [reflexivity|].
+  cbn [map fold_left]. rewrite IH. rewrite strip_nl_r by reflexivity. reflexivity.
+Qed.
+
+Lemma lstrip_by_snoc f a z : f z = false -> lstrip_by f (a ++ [z]) = lstrip_by f a ++ [z].
+Proof. intros Hz. induction a as [|c a IH]; simpl; [now rewrite Hz|]. destruct (f c); [exact IH|reflexivity]. Qed.
+
+Lemma strip_hash r : startswith hash_prefix (strip (35%N :: r)) = true.
+Proof.
+  unfold strip, strip_by. rewrite lstrip_by_cons_false by reflexivity.
+  unfold rstrip_by. simpl rev. rewrite lstrip_by_snoc by reflexivity. rewrite rev_app_distr. reflexivity.
+Qed.
+
+Definition hash_line (l : text) : Prop := exists r, l = 35%N :: r.
+
+Lemma header_loop_app au rc hs : forall i i' rest, rest <> [] -> Forall hash_line hs ->
+  fold_header au rc (Ok i) hs = Ok i' ->
+  header_loop au rc i (hs ++ rest) = header_loop au rc i' rest.
+Proof.
+  induction hs as [|h hs IH]; intros i i' rest NE F H.
+  - injection H as <-. reflexivity.
+  - inversion F as [|? ? [r ->] F']; subst. cbn [app header_loop]. rewrite strip_hash.
+    unfold fold_header in H. cbn [fold_left rbind] in H. fold (fold_header au rc) in H.
+    destruct (header_line au rc i (strip (35%N :: r))) as [i1|e].
+    + cbn [rbind]. destruct (hs ++ rest) as [|x xs] eqn:E.
+      * apply app_eq_nil in E as [_ E]. contradiction.
+      * rewrite <- E. now apply IH.
+    + unfold fold_header in H. fold (fold_header au rc (Err e) hs) in H. rewrite fold_header_err in H. discriminate.
+Qed.
+
+Lemma header_loop_stop au rc i l rest :
+  startswith hash_prefix (strip l) = false -> header_loop au rc i (l :: rest) = Ok (i, l :: rest).
+Proof. intros H. cbn [header_loop]. now rewrite H. Qed.
+
+(* ---- prefix tests on a literal key followed by anything ---- *)
+Fixpoint differ (p k : text) : bool :=
+  match p, k with
+  | a :: p', b :: k' => if N.eqb a b then differ p' k' else true
+  | _, _ => false
+  end.
+
+Lemma sw_false p : forall k x, differ p k = true -> startswith p (k ++ x) = false.
+Proof.
+  induction p as [|a p IH]; intros [|b k] x H; try discriminate. simpl in *.
+  destruct (N.eqb a b); [now apply IH|reflexivity].
+Qed.
+
+Lemma sw_true p : forall k x, startswith p k = true -> startswith p (k ++ x) = true.
+Proof.
+  induction p as [|a p IH]; intros [|b k] x H; try reflexivity; try discriminate. simpl in *.
+  apply andb_true_iff in H as [H1 H2]. rewrite H1. now apply IH.
+Qed.
+
+Definition P_uniq : text := lit "# NUMBER UNIQUE PREFERENCES".
+Definition P_ncat : text := lit "# NUMBER CATEGORIES".
+Definition P_cname : text := lit "# CATEGORY NAME".
+
+Definition not_cat_line (line : text) : Prop :=
+  startswith P_uniq line = false /\ startswith P_ncat line = false /\ startswith P_cname line = false.
+
+Lemma not_cat_line_key K x :
+  differ P_uniq K = true -> differ P_ncat K = true -> differ P_cname K = true -> not_cat_line (K ++ x).
+Proof. intros A B C. repeat split; now apply sw_false. Qed.
+
+Lemma header_line_meta au rc i line :
+  not_cat_line line -> header_line au rc i line = rmap (set_c_meta i) (parse_metadata au (c_meta i) line).
+Proof.
+  intros (A & B & C). unfold header_line. fold P_uniq P_ncat P_cname. now rewrite A, B, C.
+Qed.
+
+(* a run of lines none of which is a categorical header line is handled by parse_metadata alone *)
+Lemma fold_header_meta au rc i0 ls : Forall (fun l => not_cat_line (strip l)) ls -> forall rm,
+  fold_header au rc (rmap (set_c_meta i0) rm) ls =
+  rmap (set_c_meta i0) (fold_left (fun r l => rbind r (fun m => parse_metadata au m (strip l))) ls rm).
+Proof.
+  induction 1 as [|l ls Hl _ IH]; intros rm; [reflexivity|].
+  unfold fold_header. cbn [fold_left]. fold (fold_header au rc).
+  replace (rbind (rmap (set_c_meta i0) rm) (fun i => header_line au rc i (strip l)))
+    with (rmap (set_c_meta i0) (rbind rm (fun m => parse_metadata au m (strip l)))); [apply IH|].
+  destruct rm as [m|e]; [|reflexivity]. cbn [rmap rbind]. rewrite header_line_meta by exact Hl. reflexivity.
+Qed.
+
+Lemma set_c_meta_self i : set_c_meta i (c_meta i) = i.
+Proof. now destruct i. Qed.
+
+Corollary fold_header_meta_lines au rc i ls : Forall (fun l => not_cat_line (strip l)) ls ->
+  fold_header au rc (Ok i) ls = rmap (set_c_meta i) (parse_meta_lines au (c_meta i) ls).
+Proof.
+  intros H. rewrite <- (set_c_meta_self i) at 1.
+  apply (fold_header_meta au rc i ls H (Ok (c_meta i))).
+Qed.
+
+Lemma kv_not_cat K v :
+  K <> [] -> strip K = K -> wf_value v ->
+  differ P_uniq K = true -> differ P_ncat K = true -> differ P_cname K = true ->
+  not_cat_line (strip (K ++ 32%N :: v)).
+Proof. intros NE SK Hv A B C. rewrite strip_kv by assumption. now apply not_cat_line_key. Qed.
+
+Lemma meta_lines_not_cat m : wf_fields m -> Forall (fun l => not_cat_line (strip l)) (meta_lines m).
+Proof.
+  intros (H1 & H2 & H3 & H4 & H5 & H6 & H7 & H8 & H9). unfold meta_lines.
+  repeat constructor; apply kv_not_cat; try reflexivity; try discriminate;
+    first [apply H1|apply H2|apply H3|apply H4|apply H5|apply H6|apply H7|apply H8|apply H9].
+Qed.
+
+Lemma name_line_not_cat a nm : wf_value nm -> not_cat_line (strip (name_line alt_name_prefix a nm)).
+Proof.
+  intros Hv. rewrite strip_name_line; [|reflexivity|exact Hv]. unfold name_key. rewrite <- !app_assoc.
+  now apply not_cat_line_key.
+Qed.
+
+Lemma alt_name_lines_not_cat d :
+  Forall (fun p => wf_field (snd p)) d -> Forall (fun l => not_cat_line (strip l)) (alt_name_lines d).
+Proof.
+  induction 1 as [|[a nm] r [Hv _] _ IH]; [constructor|]. cbn [alt_name_lines map fst snd].
+  constructor; [now apply name_line_not_cat|exact IH].
+Qed.
